@@ -114,15 +114,18 @@ Proof.
   unfold name_of, valid, sub. rewrite rev_involutive, Hs. simpl. split; congruence.
 Qed.
 
-(* ambiguous trees are rejected when the taxonomy is built *)
+(* ambiguous trees are rejected when the taxonomy is built: a repeated leaf name, a repeated (assigned) internal
+   name, or a name carried by a leaf and by an internal node *)
 Theorem ambiguous_rejected (ui : bool) t :
-  ~ NoDup (leaf_names (if ui then t else synth t)) \/ ~ NoDup (internal_names (if ui then t else synth t)) ->
+  ~ NoDup (leaf_names (if ui then t else synth t)) \/ ~ NoDup (internal_names (if ui then t else synth t)) \/
+  ~ no_shared_name (if ui then t else synth t) ->
   build_taxonomy ui t = Err KeyError.
 Proof.
   intros H. unfold build_taxonomy. set (u := if ui then t else synth t) in *.
   destruct (nodupb (leaf_names u)) eqn:El; simpl; [|reflexivity].
   destruct (nodupb (internal_names u)) eqn:Ei; simpl; [|reflexivity].
-  apply nodupb_NoDup in El, Ei. destruct H; contradiction.
+  destruct (shared_names u) eqn:Es; [reflexivity|].
+  apply nodupb_NoDup in El, Ei. apply shared_names_spec in Es. destruct H as [H|[H|H]]; contradiction.
 Qed.
 
 (* ---------- the common ancestor of a set of genomes ---------- *)
